@@ -21,6 +21,7 @@ handle_event is called exactly once on every path, the summary is written only i
 the inner call and after the state was advanced (hence once); (R3) scenario-level `failed` is final-only (C01.R3
 guard); (R4) `scenarios.retried` is incremented only when the scenario was not yet marked.
 Decides the per-event increments and the state machine; numeric equality with a concrete stream is not decided.
+Added after the second seeded round: (R6) the counters read through writer::Stats of combined / wrapped writers follow the getter algebra (= C01.R4).
 """
 DECLINED = ["numeric equality of the counters with a concrete event stream", "text of the summary"]
 ASSUMPTIONS = ["HashMap::insert returns None iff the key was absent"]
